@@ -265,6 +265,28 @@ func ApplyTamper(wire []byte, spec *TamperSpec, c *TamperCtx) ([]byte, bool, err
 				return wire, false, nil
 			}
 			l.Truncate(0)
+		case "pt-remove": // one whole point (two consecutive elements) less
+			i := spec.Index
+			if i < 0 || i+1 >= n {
+				return wire, false, nil
+			}
+			var keep [][]byte
+			for k := 0; k < n; k++ {
+				if k != i && k != i+1 {
+					keep = append(keep, l.Get(k).Bytes())
+				}
+			}
+			l.Truncate(0)
+			for _, k := range keep {
+				l.Append(protoreflect.ValueOfBytes(k))
+			}
+		case "pt-dup": // one whole point more (a copy of the last one)
+			if n < 2 {
+				return wire, false, nil
+			}
+			a, b := l.Get(n-2).Bytes(), l.Get(n-1).Bytes()
+			l.Append(protoreflect.ValueOfBytes(append([]byte{}, a...)))
+			l.Append(protoreflect.ValueOfBytes(append([]byte{}, b...)))
 		case "truncate1":
 			if n == 0 {
 				return wire, false, nil
